@@ -54,17 +54,19 @@ def ctlFeed {Msg} (U : Unpack Msg) (minLen : Nat) (s : CS Msg) (chunk : Bytes) :
   | _ => s
 
 /-- `OFConnection.read` loop over the IOWorker receive buffer; returns (remaining buffer, delivered, status).
-    Error replies are not part of this model (they are C10/C13 observables). -/
+    Error replies are not part of this model (they are C10/C13 observables).  As repaired (D5): a declared length
+    below 8 closes the connection, and an exception raised by a decoder is handled like a bad length (skip `n`). -/
 def swLoop {Msg} (U : Unpack Msg) : Nat → Bytes → List Msg → Bytes × List Msg × Status
   | 0, buf, acc => (buf, acc, .alive)
   | fuel+1, buf, acc =>
     if buf.length < 4 then (buf, acc, .alive) else
     if byteAt buf 0 ≠ 1 then (buf, acc, .closed) else                 -- ERR_BAD_VERSION → close, stop
     let n := declLen buf 0
+    if n < 8 then (buf, acc, .closed) else                             -- shorter than a header: cannot resynchronise
     if n > buf.length then (buf, acc, .alive) else
     match U (byteAt buf 1) buf 0 with
     | .none => swLoop U fuel (buf.drop n) acc                          -- ERR_NO_UNPACKER → error reply, skip n
-    | .raise => (buf, acc, .dead)                                      -- exception escapes read()
+    | .raise => swLoop U fuel (buf.drop n) acc                         -- decoder exception → logged, skip n
     | .ok (off', m) =>
       if off' ≠ n then swLoop U fuel (buf.drop n) acc                  -- ERR_BAD_LENGTH → error reply, skip n
       else swLoop U fuel (buf.drop n) (acc ++ [m])
@@ -78,6 +80,12 @@ def swFeed {Msg} (U : Unpack Msg) (s : CS Msg) (chunk : Bytes) : CS Msg :=
   | _ => s
 
 def init {Msg} : CS Msg := { buf := [], delivered := [], st := .alive }
+
+/-- several connections served by one I/O loop: feeding connection `i` -/
+def feedAt {Msg} (feed : CS Msg → Bytes → CS Msg) (net : List (CS Msg)) (i : Nat) (chunk : Bytes) : List (CS Msg) :=
+  match net[i]? with
+  | some c => net.set i (feed c chunk)
+  | none => net
 
 /-- The decoder used by the correspondence driver: a message is its own bytes, the decoder consumes exactly the
     declared length.  (What every real decoder does on a well-formed message — that is property C01.) -/
